@@ -332,6 +332,7 @@ def evalBin (op : BinOp) (a b : Val) : Except String Val :=
         | some 2 =>
           match op with
           | .add => .ok (.uns (numAdd x y)) | .sub => .ok (.uns (numSub x y)) | _ => .ok (.uns (numMul x y))
+        | some 0 => .error "arithmetic operator between two literals: type cannot be determined"
         | _ => .error "arithmetic operator needs an UNSIGNED operand"
       | _, _ => .error "arithmetic operator on incompatible operands"
 
